@@ -29,10 +29,24 @@ type ObligRec struct {
 	Mode    string            `json:"mode"`
 	Level   string            `json:"level"`
 	Dump    string            `json:"dump,omitempty"`
+	GoClause string           `json:"go_clause,omitempty"` // the clause as a Go boolean expression over parameter/result names, when it has such a form
+}
+
+type ParamRec struct {
+	Name string   `json:"name"`
+	Type string   `json:"type"`
+	Syms []string `json:"syms"` // SMT symbols: scalar -> [s]; slice -> [base, off, len, cap]
 }
 
 type FnRec struct {
-	Name        string   `json:"name"`
+	GoName      string     `json:"go_name"`
+	Recv        string     `json:"recv,omitempty"`
+	Lemma       bool       `json:"lemma"`
+	Params      []ParamRec `json:"params"`
+	Results     []string   `json:"results"`
+	ResultNames []string   `json:"result_names"`
+	EnsuresText []string   `json:"ensures_text"`
+	Name        string     `json:"name"`
 	Mode        string   `json:"mode"`
 	Level       string   `json:"level"`
 	Trusted     bool     `json:"trusted"`
@@ -67,8 +81,94 @@ func hasTag(tags []string, t string) bool {
 	return false
 }
 
+// inheritedTags: a contract that a function tagged P relies on (static callee under contract, closure, inlined
+// callee) is part of P's argument, so all of its obligations are checked for P as well.
+func (g *Gen) inheritedTags() map[string]map[string]bool {
+	inh := map[string]map[string]bool{}
+	uses := map[string][]string{}
+	for _, name := range g.specs.Order {
+		sp := g.specs.Funcs[name]
+		inh[name] = map[string]bool{}
+		for _, t := range sp.allTags() {
+			inh[name][t] = true
+		}
+		fn := g.fnByName[name]
+		if fn == nil || fn.Blocks == nil || sp.Level == "thin" {
+			continue // thin drivers use many contracts loosely; their callees carry explicit tags
+		}
+		seen := map[*ssa.Function]bool{}
+		var scan func(f *ssa.Function, depth int)
+		scan = func(f *ssa.Function, depth int) {
+			if f == nil || seen[f] || f.Blocks == nil || depth > 4 {
+				return
+			}
+			seen[f] = true
+			for _, b := range f.Blocks {
+				for _, in := range b.Instrs {
+					if mc, ok := in.(*ssa.MakeClosure); ok {
+						cf := mc.Fn.(*ssa.Function)
+						if _, has := g.specs.Funcs[fnName(cf)]; has {
+							uses[name] = append(uses[name], fnName(cf))
+						} else {
+							scan(cf, depth+1)
+						}
+					}
+					ci, ok := in.(ssa.CallInstruction)
+					if !ok {
+						continue
+					}
+					if ci.Common().IsInvoke() {
+						for _, im := range g.implementersL(ci.Common(), true) {
+							uses[name] = append(uses[name], fnName(im.fn))
+						}
+						continue
+					}
+					if cal := ci.Common().StaticCallee(); cal != nil {
+						cn := fnName(cal)
+						if csp, has := g.specs.Funcs[cn]; has {
+							uses[name] = append(uses[name], cn)
+							if csp.Model != "" {
+								uses[name] = append(uses[name], csp.Model)
+							}
+						} else if g.analysable(cal) {
+							scan(cal, depth+1) // possibly inlined
+						}
+					}
+				}
+			}
+		}
+		scan(fn, 0)
+	}
+	g.viaUse = map[string]map[string]bool{}
+	for changed := true; changed; {
+		changed = false
+		for caller, cs := range uses {
+			for _, c := range cs {
+				if inh[c] == nil {
+					continue
+				}
+				if g.viaUse[c] == nil {
+					g.viaUse[c] = map[string]bool{}
+				}
+				for t := range inh[caller] {
+					if !inh[c][t] {
+						inh[c][t] = true
+						changed = true
+					}
+					if !g.viaUse[c][t] {
+						g.viaUse[c][t] = true
+						changed = true
+					}
+				}
+			}
+		}
+	}
+	return inh
+}
+
 func (g *Gen) runAll(fnFilter, prop, dump string) *Report {
 	rep := &Report{BuildTag: g.tagsLbl}
+	inh := g.inheritedTags()
 	var fcs []*FnCtx
 	names := append([]string(nil), g.specs.Order...)
 	for _, name := range names {
@@ -76,7 +176,7 @@ func (g *Gen) runAll(fnFilter, prop, dump string) *Report {
 		if fnFilter != "" && !strings.Contains(name, fnFilter) {
 			continue
 		}
-		if prop != "" && !hasTag(sp.allTags(), prop) {
+		if prop != "" && !inh[name][prop] {
 			continue
 		}
 		if sp.Trusted {
@@ -109,9 +209,47 @@ func (g *Gen) runAll(fnFilter, prop, dump string) *Report {
 		}
 		fcs = append(fcs, fc)
 	}
-	g.discharge(fcs, func(o *Oblig) bool { return hasTag(o.Tags, prop) })
+	g.discharge(fcs, func(o *Oblig) bool {
+		if hasTag(o.Tags, prop) {
+			return true
+		}
+		// the function is part of prop's argument only through a caller: all its obligations count
+		if g.viaUse[o.Fn][prop] {
+			o.Tags = append(append([]string(nil), o.Tags...), prop)
+			return true
+		}
+		return false
+	})
 	for _, fc := range fcs {
-		fr := FnRec{Name: fc.spec.Name, Mode: fc.spec.Mode, Level: fc.spec.Level, Errors: fc.errs, Tags: fc.spec.allTags()}
+		fr := FnRec{Name: fc.spec.Name, Mode: fc.spec.Mode, Level: fc.spec.Level, Errors: fc.errs, Tags: fc.spec.allTags(), GoName: fc.fn.Name(), Lemma: fc.spec.Lemma}
+		if fc.fn.Signature.Recv() != nil {
+			fr.Recv = fc.fn.Signature.Recv().Type().String()
+		}
+		for _, p := range fc.fn.Params {
+			pr := ParamRec{Name: p.Name(), Type: types.TypeString(p.Type(), func(pk *types.Package) string { return "" })}
+			if v, ok := fc.top.vals[p]; ok {
+				if v.Sub != nil {
+					for _, sv := range v.Sub {
+						pr.Syms = append(pr.Syms, sv.S)
+					}
+				} else {
+					pr.Syms = []string{v.S}
+				}
+			}
+			fr.Params = append(fr.Params, pr)
+		}
+		for i := 0; i < fc.fn.Signature.Results().Len(); i++ {
+			fr.Results = append(fr.Results, fc.fn.Signature.Results().At(i).Type().String())
+		}
+		for _, c := range fc.spec.Ensures {
+			fr.EnsuresText = append(fr.EnsuresText, c.Text)
+		}
+		fr.ResultNames = fc.spec.Results
+		if fr.ResultNames == nil {
+			for i := 0; i < fc.fn.Signature.Results().Len(); i++ {
+				fr.ResultNames = append(fr.ResultNames, fc.fn.Signature.Results().At(i).Name())
+			}
+		}
 		for a := range fc.assumpt {
 			fr.Assumptions = append(fr.Assumptions, a)
 		}
@@ -126,6 +264,11 @@ func (g *Gen) runAll(fnFilter, prop, dump string) *Report {
 			fr.Obligations++
 			r := ObligRec{Name: o.Name, Kind: o.Kind, Fn: o.Fn, Tags: o.Tags, Status: o.Status, Solver: o.Result.Solver, TimeS: o.Result.Time, Text: o.Text,
 				Verdict: o.Result.Verdict, All: o.Result.All, QBytes: len(o.Query), Mode: fc.spec.Mode, Level: fc.spec.Level}
+			if o.Spec != nil && o.Spec.Expr != nil && o.Kind == "ensures" {
+				if gs, ok := goExpr(o.Spec.Expr, g); ok {
+					r.GoClause = gs
+				}
+			}
 			rep.SolverS += o.Result.Time
 			bad := o.Status == "failed" || o.Status == "undecided" || o.Status == "cover-vacuous"
 			if bad {
@@ -224,4 +367,64 @@ func (g *Gen) computeUnstableGlobals() {
 func (g *Gen) globalStable(o *types.Var) bool {
 	key := o.Pkg().Path() + "." + o.Name()
 	return !g.unstable[key]
+}
+
+// goExpr renders a spec expression as a Go boolean/integer expression when it only uses parameters, results,
+// package-level constants, Go operators and spec functions that have an executable twin (verifSpec_<name>).
+func goExpr(e *SExpr, g *Gen) (string, bool) {
+	switch e.Op {
+	case "lit":
+		return e.Name, true
+	case "ident":
+		if strings.HasPrefix(e.Name, "$") {
+			return "", false
+		}
+		return e.Name, true
+	case "unary":
+		x, ok := goExpr(e.Args[0], g)
+		return "(" + e.Name + x + ")", ok
+	case "binary":
+		a, ok1 := goExpr(e.Args[0], g)
+		b, ok2 := goExpr(e.Args[1], g)
+		if !ok1 || !ok2 {
+			return "", false
+		}
+		switch e.Name {
+		case "==>":
+			return "(!(" + a + ") || (" + b + "))", true
+		case "<==>":
+			return "((" + a + ") == (" + b + "))", true
+		}
+		return "(" + a + " " + e.Name + " " + b + ")", true
+	case "call":
+		switch e.Name {
+		case "len", "cap", "int", "uint", "uint8", "uint16", "uint32", "uint64", "int8", "int16", "int32", "int64", "byte":
+			if len(e.Args) != 1 {
+				return "", false
+			}
+			x, ok := goExpr(e.Args[0], g)
+			return e.Name + "(" + x + ")", ok
+		}
+		if sf, ok := g.specs.SpecFuns[e.Name]; ok {
+			for _, p := range sf.Params {
+				if isArrParam(p.Type) {
+					return "", false
+				}
+			}
+			if g.pkg.Pkg.Scope().Lookup("verifSpec_"+e.Name) == nil {
+				return "", false
+			}
+			var as []string
+			for _, a := range e.Args {
+				x, ok := goExpr(a, g)
+				if !ok {
+					return "", false
+				}
+				as = append(as, x)
+			}
+			return "verifSpec_" + e.Name + "(" + strings.Join(as, ", ") + ")", true
+		}
+		return "", false
+	}
+	return "", false
 }
